@@ -8,6 +8,7 @@ mod jobs;
 
 #[global_allocator]
 static GLOBAL: worker::CapAlloc = worker::CapAlloc;
+mod c01;
 mod c02;
 mod c03;
 mod c09;
@@ -45,6 +46,15 @@ fn main() {
         ("corr", "C17") => {
             let mut c = util::Corr::new();
             c17::corr(&tier, seed, &mut c);
+        }
+        ("corr", "C01") => {
+            let mut c = util::Corr::new();
+            c01::corr(&tier, seed, &mut c);
+        }
+        ("search", "C01") => {
+            let mut s = util::Search::new();
+            c01::search(&tier, seed, &mut s);
+            s.finish();
         }
         ("corr", "C02") => {
             let mut c = util::Corr::new();
